@@ -70,7 +70,7 @@ func enumerateScenarios(nb int, salt int) []*scenario {
 }
 
 func runC05(c *vh.Ctx) {
-	n := c.N(6, 80)
+	n := c.N(18, 200)
 	for i := 0; i < n; i++ {
 		if !c.Mine(i) {
 			continue
